@@ -1160,7 +1160,7 @@ def FIBER(
     h = (
         length
         if (beta_2 == 0 and beta_3 == 0) or gamma == 0
-        else phi_max / (gamma * power(A)).max()
+        else min(length, phi_max / (gamma * power(A)).max())  # never step beyond the end of the fiber
     )
 
     x_length = h
